@@ -447,6 +447,16 @@ def check_loop_protocol(rep, rule, prog, fn, engine):
                 good, why = False, f"early exit from the stabilisation loop at line {inner_exits[0].line()}"
             rep.check(good, rule, key, where, "loop runs until the iterate is stable (a != b with b = previous a)", why)
             continue
+        # `while let Some(update) = vars.map(update).find(non-empty) { x = x | update }`: the loop runs exactly as long as some variable
+        # yields a non-empty update
+        srch = first_nonempty_update(nz(cond), fn, nz) if cond else None
+        if srch is not None:
+            problems = [] if srch is True else [srch]
+            for s in breaks:
+                problems.append(f"early exit from the saturation loop at line {s.line()}")
+            rep.check(not problems, rule, key, where,
+                      "search loop stops only when no network variable yields a non-empty update", "; ".join(problems))
+            continue
         # saturation loop
         if cond and cond[0] == "not" and cond[1][0] == "loopvar" and cond[1][1] == lid:
             flag = cond[1][2]
